@@ -724,3 +724,337 @@ Proof.
 Qed.
 
 End TreeOk2.
+
+(* ---------------------------------------------------------------- reduceRep *)
+Definition loopish (t : Z) : Prop := kcls t = KLoop \/ kcls t = KCharLoop.
+
+Lemma pre_set_bounds t o ch m n str st kids m' n' :
+  pre (RN t o ch m n str st kids) -> loopish t -> bounds_ok m' n' = true -> wf (RN t o ch m' n' str st kids).
+Proof.
+  intros [H W] L B. cbn [n_kids] in W. apply wf_iff. split; [|exact W]. unfold knd in *.
+  destruct L as [L|L]; rewrite L in *.
+  - destruct kids as [|k [|k2 r]]; try discriminate. apply andb_prop in H. destruct H as [_ H]. rewrite B, H. reflexivity.
+  - apply andb_prop in H. destruct H as [H _]. rewrite H, B. reflexivity.
+Qed.
+
+Lemma wf_loopish_bounds x : wf x -> loopish (n_t x) -> bounds_ok (n_m x) (n_n x) = true.
+Proof.
+  destruct x as [t o ch m n str st kids]. cbn [n_t n_m n_n]. intros W L. apply wf_iff in W. destruct W as [H _].
+  unfold knd in H. destruct L as [L|L]; rewrite L in H.
+  - destruct kids as [|k [|k2 r]]; try discriminate. apply andb_prop in H. tauto.
+  - apply andb_prop in H. tauto.
+Qed.
+
+Definition mulsat (c k : Z) : Z := if 0 <? c then (if (pp_inf - 1) / c <? k then pp_inf else c * k) else c.
+
+Lemma mulsat_bounds cm cn mn mx : bounds_ok cm cn = true -> bounds_ok mn mx = true ->
+  bounds_ok (mulsat cm mn) (mulsat cn mx) = true.
+Proof.
+  unfold bounds_ok, mulsat. intros H1 H2.
+  assert (A : 0 <= cm <= cn /\ cn <= pp_inf /\ 0 <= mn <= mx /\ mx <= pp_inf) by lia. clear H1 H2.
+  destruct A as [A1 [A2 [A3 A4]]]. unfold pp_inf in *.
+  assert (Q : forall c, 0 < c -> c * ((2147483647 - 1) / c) <= 2147483647 - 1 /\ 2147483647 - 1 < c * ((2147483647 - 1) / c + 1)).
+  { intros c Hc. split; [apply Z.mul_div_le; lia|]. pose proof (Z.mul_succ_div_gt (2147483647 - 1) c Hc). lia. }
+  destruct (0 <? cm) eqn:E1; destruct (0 <? cn) eqn:E2; try lia.
+  - destruct (Q cm ltac:(lia)) as [Q1 Q2]. destruct (Q cn ltac:(lia)) as [Q3 Q4].
+    set (q1 := (2147483647 - 1) / cm) in *. set (q2 := (2147483647 - 1) / cn) in *.
+    assert (q2 <= q1) by (subst q1 q2; apply Z.div_le_compat_l; lia).
+    assert (0 <= q2) by (subst q2; apply Z.div_pos; lia).
+    destruct (q1 <? mn) eqn:E3; destruct (q2 <? mx) eqn:E4; try lia.
+    + assert (cm * mn <= cm * q1) by (apply Z.mul_le_mono_nonneg_l; lia). lia.
+    + assert (cm * mn <= cm * q1) by (apply Z.mul_le_mono_nonneg_l; lia).
+      assert (cn * mx <= cn * q2) by (apply Z.mul_le_mono_nonneg_l; lia).
+      assert (cm * mn <= cn * mx) by (apply Z.mul_le_mono_nonneg; lia).
+      assert (0 <= cm * mn) by (apply Z.mul_nonneg_nonneg; lia). lia.
+  - destruct (Q cn ltac:(lia)) as [Q3 Q4]. set (q2 := (2147483647 - 1) / cn) in *.
+    destruct (q2 <? mx) eqn:E4; [lia|].
+    assert (cn * mx <= cn * q2) by (apply Z.mul_le_mono_nonneg_l; lia).
+    assert (0 <= cn * mx) by (apply Z.mul_nonneg_nonneg; lia). lia.
+Qed.
+
+Lemma loop_kid_dir d t o ch m n str st k : kcls t = KLoop -> dirb d (RN t o ch m n str st [k]) = dirb d k.
+Proof.
+  intros K. assert (T : t = T_Loop \/ t = T_Lazyloop).
+  { revert K. knum. repeat match goal with |- context [if ?b then _ else _] => destruct b eqn:? end; intros; try discriminate; lia. }
+  destruct T as [-> | ->]; rewrite dirb_eq; cbn; rewrite andb_true_r; reflexivity.
+Qed.
+
+Lemma rep_descend_wf t mn mx : is_loop_t t = true -> bounds_ok mn mx = true -> forall u um un,
+  pre u -> loopish (n_t u) -> bounds_ok um un = true ->
+  wf (rep_descend t mn mx u um un) /\ loopish (n_t (rep_descend t mn mx u um un)) /\
+  bounds_ok (n_m (rep_descend t mn mx u um un)) (n_n (rep_descend t mn mx u um un)) = true /\
+  (forall d, dirb d u = true -> dirb d (rep_descend t mn mx u um un) = true).
+Proof.
+  intros Ht Bq. induction u as [ut uo uch um0 un0 ustr uset ukids IH] using rnode_ind'. intros um un P L B.
+  cbn [n_t] in L. cbn [rep_descend].
+  assert (H0 : wf (RN ut uo uch um un ustr uset ukids) /\ loopish (n_t (RN ut uo uch um un ustr uset ukids)) /\
+               bounds_ok (n_m (RN ut uo uch um un ustr uset ukids)) (n_n (RN ut uo uch um un ustr uset ukids)) = true /\
+               (forall d, dirb d (RN ut uo uch um0 un0 ustr uset ukids) = true -> dirb d (RN ut uo uch um un ustr uset ukids) = true)).
+  { split; [eapply pre_set_bounds; eassumption|]. split; [exact L|]. split; [exact B|].
+    intros d Hd. rewrite <- Hd. apply dirb_retype; reflexivity. }
+  destruct ukids as [|child r]; [exact H0|].
+  match goal with |- context [if negb ?b then _ else _] => destruct b eqn:EV end; cbn [negb]; [|exact H0].
+  match goal with |- context [if ?b then _ else _] => destruct b end; [exact H0|].
+  (* u has a child: it is a Loop / Lazyloop with exactly this child *)
+  assert (KL : kcls ut = KLoop).
+  { destruct L as [L|L]; [exact L|]. destruct P as [H _]. unfold knd in H. rewrite L in H. discriminate. }
+  destruct (wf_loop_inv _ _ _ _ _ _ _ _ P KL) as [k [Ek [Wk _]]]. inversion Ek; subst k r.
+  inversion IH as [|? ? IHc _]; subst.
+  assert (Lc : loopish (n_t child)).
+  { assert (T : t = T_Loop \/ t = T_Lazyloop) by (knum; lia).
+    assert (C : n_t child = t \/ is_charloop (n_t child) = true).
+    { destruct (n_t child =? t) eqn:E1; [left; lia|]. right.
+      destruct (t =? T_Loop) eqn:E2.
+      - destruct ((n_t child =? T_Oneloop) || (n_t child =? T_Notoneloop) || (n_t child =? T_Setloop)) eqn:E3; [knum; lia|].
+        destruct (is_atomicloop_family (n_t child)) eqn:E4; [knum; lia | discriminate].
+      - knum. lia. }
+    destruct C as [C|C]; [left; rewrite C; destruct T as [-> | ->]; reflexivity | right; apply kcls_charloop; exact C]. }
+  pose proof (wf_loopish_bounds child Wk Lc) as Bc.
+  destruct (IHc (mulsat (n_m child) mn) (mulsat (n_n child) mx) (wf_pre _ Wk) Lc (mulsat_bounds _ _ _ _ Bc Bq)) as [R1 [R2 [R3 R4]]].
+  unfold mulsat in *.
+  split; [exact R1|]. split; [exact R2|]. split; [exact R3|].
+  intros d Hd. apply R4. rewrite loop_kid_dir in Hd by exact KL. exact Hd.
+Qed.
+
+Lemma reduce_rep_wf x : pre x -> is_loop_t (n_t x) = true ->
+  wf (reduce_rep x) /\ forall d, dirb d x = true -> dirb d (reduce_rep x) = true.
+Proof.
+  intros P Ht. destruct x as [t o ch m n str st kids]. cbn [n_t] in Ht.
+  assert (KL : kcls t = KLoop) by (assert (t = T_Loop \/ t = T_Lazyloop) by (knum; lia); destruct H as [-> | ->]; reflexivity).
+  destruct (wf_loop_inv _ _ _ _ _ _ _ _ P KL) as [k [-> [Wk [B Dk]]]].
+  unfold reduce_rep.
+  destruct (rep_descend_wf t m n Ht B (RN t o ch m n str st [k]) m n P (or_introl KL) B) as [U1 [U2 [U3 U4]]].
+  set (u := rep_descend t m n (RN t o ch m n str st [k]) m n) in *.
+  assert (GEN : wf (if m =? pp_inf then mk_node T_Nothing o
+    else match n_kids u with
+         | [c] => if (n_t c =? T_One) || (n_t c =? T_Notone) || (n_t c =? T_Set)
+                  then make_rep c (if n_t u =? T_Lazyloop then T_Onelazy else T_Oneloop) (n_m u) (n_n u)
+                  else u
+         | _ => u
+         end) /\
+    forall d, dirb d (RN t o ch m n str st [k]) = true ->
+      dirb d (if m =? pp_inf then mk_node T_Nothing o
+    else match n_kids u with
+         | [c] => if (n_t c =? T_One) || (n_t c =? T_Notone) || (n_t c =? T_Set)
+                  then make_rep c (if n_t u =? T_Lazyloop then T_Onelazy else T_Oneloop) (n_m u) (n_n u)
+                  else u
+         | _ => u
+         end) = true).
+  { destruct (m =? pp_inf); [split; [apply wf_mk_node; reflexivity | intros d _; apply dirb_nonconsuming_leaf; reflexivity]|].
+    clearbody u. destruct u as [ut uo uch um un ustr ust ukids]. cbn [n_kids n_t n_m n_n] in *.
+    destruct ukids as [|c [|c2 r]]; try (split; [exact U1 | exact U4]).
+    destruct ((n_t c =? T_One) || (n_t c =? T_Notone) || (n_t c =? T_Set)) eqn:E; [|split; [exact U1 | exact U4]].
+    assert (Wc : wf c) by (apply wf_kids in U1; cbn in U1; apply wfl_cons in U1; tauto).
+    assert (KU : kcls ut = KLoop).
+    { destruct U2 as [L|L]; [exact L|]. apply wf_iff in U1. destruct U1 as [H _]. unfold knd in H. rewrite L in H. discriminate. }
+    destruct (make_rep_wf c (if ut =? T_Lazyloop then T_Onelazy else T_Oneloop) um un Wc E) as [M1 M2].
+    - destruct (ut =? T_Lazyloop); auto.
+    - exact U3.
+    - split; [exact M1|]. intros d Hd. rewrite M2. specialize (U4 d Hd). rewrite loop_kid_dir in U4 by exact KU. exact U4. }
+  destruct (n_t k =? T_Empty); [|exact GEN].
+  split; [exact Wk|]. intros d Hd. rewrite loop_kid_dir in Hd by exact KL. exact Hd.
+Qed.
+
+(* ---------------------------------------------------------------- reduce, addChild, makeQuantifier *)
+Lemma pre_reopt t o ch m n str st kids o' :
+  pre (RN t o ch m n str st kids) -> pre (RN t o' ch m n str st kids).
+Proof. intros [H W]. split; [exact H | exact W]. Qed.
+
+Lemma econd_kids t o ch m n str st kids :
+  pre (RN t o ch m n str st kids) -> t = T_ExprCond ->
+  exists c r, kids = c :: r /\ wf c /\ wfl r /\ (length r <= 2)%nat.
+Proof.
+  intros [H W] ->. unfold knd in H. cbn in H. cbn [n_kids] in W.
+  destruct kids as [|c [|c2 [|c3 [|c4 r]]]]; try discriminate; exists c; eexists; (split; [reflexivity|]);
+    apply wfl_cons in W; destruct W as [W1 W2]; (split; [exact W1|]); (split; [exact W2|]); cbn; lia.
+Qed.
+
+Lemma dirb_bref d o ch m n str st kids : dirb d (RN T_BackRefCond o ch m n str st kids) = forallb (dirb d) kids.
+Proof. rewrite dirb_eq. reflexivity. Qed.
+
+Lemma dirb_econd d o ch m n str st kids : dirb d (RN T_ExprCond o ch m n str st kids) = forallb (dirb d) (tl kids).
+Proof. rewrite dirb_eq. reflexivity. Qed.
+
+Section TreeOk3.
+Variable is_word_char : Z -> bool.
+Variable to_lower : Z -> Z.
+Variable simple_fold : Z -> Z.
+Variable participates : Z -> bool.
+Variable cat_in : Z -> Z -> bool.
+Variable cat_name : list Z -> Z.
+
+Local Notation reduce := (reduce cat_in).
+Local Notation add_child := (add_child cat_in).
+Local Notation make_quantifier := (make_quantifier cat_in).
+Local Notation RALT := (reduce_alternation_wf is_word_char to_lower simple_fold participates cat_in cat_name).
+Local Notation RCAT := (reduce_concatenation_wf is_word_char to_lower simple_fold participates cat_in cat_name).
+Local Notation ROK := (reduce_ok is_word_char to_lower simple_fold participates cat_in cat_name).
+
+Lemma reduce_wf_h : forall h x y, (height x <= h)%nat -> good x -> pre x -> reduce x = Ok y ->
+  wf y /\ forall d, dirb d x = true -> dirb d y = true.
+Proof.
+  induction h as [|h IH]; intros x y Hh G P E; [destruct x; cbn in Hh; lia|].
+  destruct x as [t o ch m n str st kids]. cbn [Parser.reduce] in E.
+  set (o1 := if t =? T_Ref then o else clear_I o) in *.
+  assert (G1 : good (RN t o1 ch m n str st kids)) by (eapply good_retype; [exact G| | |]; auto).
+  pose proof (good_kids _ G1) as K1. cbn [n_kids] in K1.
+  assert (P1 : pre (RN t o1 ch m n str st kids)) by (eapply pre_reopt; exact P).
+  pose proof (proj2 P1) as W1. cbn [n_kids] in W1.
+  assert (D1 : forall d, dirb d (RN t o ch m n str st kids) = dirb d (RN t o1 ch m n str st kids)).
+  { intros d. apply dirb_retype; try reflexivity. subst o1. destruct (t =? T_Ref); [reflexivity | symmetry; apply useRTL_clear_I]. }
+  assert (FIN : forall z, (wf z /\ forall d, dirb d (RN t o1 ch m n str st kids) = true -> dirb d z = true) ->
+                 wf z /\ forall d, dirb d (RN t o ch m n str st kids) = true -> dirb d z = true).
+  { intros z [Z1 Z2]. split; [exact Z1|]. intros d Hd. apply Z2. rewrite <- D1. exact Hd. }
+  destruct (t =? T_Alternate) eqn:E1.
+  { apply FIN. destruct (RALT (RN t o1 ch m n str st kids) y K1 W1 ltac:(cbn; lia) E) as [A1 A2]. split; [exact A1|].
+    intros d Hd. apply A2. cbn [n_kids]. rewrite dirb_list_node in Hd by (left; lia). exact Hd. }
+  destruct (t =? T_Atomic) eqn:E2.
+  { apply FIN. apply reduce_atomic_wf; [exact P1 | cbn; lia | exact E]. }
+  destruct (t =? T_Concatenate) eqn:E3.
+  { apply FIN. destruct (RCAT (RN t o1 ch m n str st kids) y K1 W1 ltac:(cbn; lia) E) as [A1 A2]. split; [exact A1|].
+    intros d Hd. apply A2. cbn [n_kids]. rewrite dirb_list_node in Hd by (right; lia). exact Hd. }
+  destruct (t =? T_Group) eqn:E4.
+  { apply FIN. apply reduce_group_wf; [|exact E]. apply pre_wf; [|exact P1]. cbn [n_t]. assert (t = T_Group) by lia. subst t. discriminate. }
+  destruct ((t =? T_Loop) || (t =? T_Lazyloop)) eqn:E5.
+  { apply FIN. assert (Ey : y = reduce_rep (RN t o1 ch m n str st kids)) by congruence. subst y. apply reduce_rep_wf; [exact P1 | exact E5]. }
+  destruct ((t =? T_PosLook) || (t =? T_NegLook)) eqn:E6.
+  { apply FIN. destruct (reduce_lookaround_wf _ y P1 E6 E) as [A1 A2]. split; [exact A1 | intros d _; apply A2]. }
+  destruct (is_set_family t) eqn:E7.
+  { apply FIN. apply reduce_set_node_wf; [|exact E7 | exact E].
+    apply pre_wf; [|exact P1]. cbn [n_t]. assert (T : t = 11 \/ t = 5 \/ t = 8 \/ t = 45) by (knum; lia).
+    destruct T as [-> | [-> | [-> | ->]]]; discriminate. }
+  destruct (t =? T_ExprCond) eqn:E8.
+  { apply FIN. assert (t = T_ExprCond) by lia. subst t.
+    destruct (econd_kids _ _ _ _ _ _ _ _ P1 eq_refl) as [cond [r [Ek [Wc [Wr Lr]]]]]. subst kids.
+    set (kids2 := match cond :: r with [_; _] => (cond :: r) ++ [mk_node T_Empty o1] | _ => cond :: r end) in *.
+    assert (K2 : exists r2, kids2 = cond :: r2 /\ wfl r2 /\ (1 <= length (cond :: r2) <= 3)%nat /\
+                  forall d, dirl d r -> dirl d r2).
+    { subst kids2. destruct r as [|b [|c r']].
+      - exists []. split; [reflexivity|]. split; [apply wfl_nil|]. split; [cbn; lia | auto].
+      - exists [b; mk_node T_Empty o1]. cbn [app]. split; [reflexivity|]. split.
+        + apply wfl_cons. split; [apply wfl_cons in Wr; tauto|]. apply wfl_cons. split; [apply wf_mk_node; reflexivity | apply wfl_nil].
+        + split; [cbn; lia|]. intros d Hd. apply dirl_cons in Hd. apply dirl_cons. split; [tauto|].
+          apply dirl_cons. split; [apply dirb_nonconsuming_leaf; reflexivity | apply dirl_nil].
+      - exists (b :: c :: r'). split; [reflexivity|]. split; [exact Wr|]. split; [cbn in *; lia | auto]. }
+    destruct K2 as [r2 [Ek2 [Wr2 [L2 Dr2]]]]. rewrite Ek2 in E. clearbody kids2. clear Ek2.
+    assert (ARITY : forall c0, knd true (RN T_ExprCond o1 ch m n str st (c0 :: r2)) = true).
+    { intros c0. unfold knd. cbn. destruct r2 as [|b [|c [|c4 r']]]; try reflexivity. cbn in L2. lia. }
+    assert (DIR : forall c0 d, dirb d (RN T_ExprCond o1 ch m n str st (cond :: r)) = true ->
+                   dirb d (RN T_ExprCond o1 ch m n str st (c0 :: r2)) = true).
+    { intros c0 d Hd. rewrite dirb_econd in Hd |- *. cbn [tl] in Hd |- *. apply Dr2. exact Hd. }
+    destruct cond as [ct co cch cm cn cstr cst ckids].
+    destruct ((ct =? T_PosLook) && negb (useRTL co)) eqn:EC.
+    - assert (ct = T_PosLook) by lia. subst ct.
+      destruct (unary_kid _ _ _ _ _ _ _ _ (wf_pre _ Wc) eq_refl) as [c [-> Wcc]].
+      assert (Gc : good c).
+      { inversion K1 as [|? ? Hc _]; subst. apply good_kids in Hc. cbn in Hc. inversion Hc; assumption. }
+      destruct (reduce c) as [c'| | |] eqn:Ec; cbn [bind] in E; try discriminate. inversion E; subst.
+      destruct (IH c c') as [C1 _]; [cbn [height] in Hh |- *; lia | exact Gc | apply wf_pre; exact Wcc | exact Ec |].
+      split; [|intros d Hd; cbn [tl]; apply DIR; exact Hd].
+      apply wf_iff. split; [apply ARITY | apply wfl_cons; split; [exact C1 | exact Wr2]].
+    - inversion E; subst. split; [|intros d Hd; apply DIR; exact Hd].
+      apply wf_iff. split; [apply ARITY | apply wfl_cons; split; [exact Wc | exact Wr2]]. }
+  destruct (t =? T_BackRefCond) eqn:E9.
+  { apply FIN. assert (t = T_BackRefCond) by lia. subst t.
+    destruct kids as [|k [|k2 r]].
+    - inversion E; subst. destruct P1 as [H _]. discriminate.
+    - inversion E; subst. apply wfl_cons in W1. destruct W1 as [Wk _]. split.
+      + apply wf_iff. split; [reflexivity|]. apply wfl_cons. split; [exact Wk|]. apply wfl_cons. split; [apply wf_mk_node; reflexivity | apply wfl_nil].
+      + intros d Hd. rewrite dirb_bref in Hd |- *. cbn [forallb] in Hd |- *. unfold mk_node.
+        rewrite dirb_nonconsuming_leaf by reflexivity. exact Hd.
+    - inversion E; subst. split; [apply pre_wf; [discriminate | exact P1] | auto]. }
+  apply FIN. inversion E; subst. split; [|auto]. apply pre_wf; [|exact P1]. cbn [n_t].
+  intros KA. revert KA E1. knum. repeat match goal with |- context [if ?b then _ else _] => destruct b eqn:? end; intros; try discriminate; lia.
+Qed.
+
+Lemma reduce_wf x y : good x -> pre x -> reduce x = Ok y -> wf y /\ forall d, dirb d x = true -> dirb d y = true.
+Proof. apply (reduce_wf_h (height x)). lia. Qed.
+
+Lemma add_child_wf parent child p' : good child -> pre child -> add_child parent child = Ok p' ->
+  exists r, p' = set_kids parent (n_kids parent ++ [r]) /\ wf r /\ forall d, dirb d child = true -> dirb d r = true.
+Proof.
+  intros G P E. unfold Parser.add_child in E. destruct (reduce child) as [r| | |] eqn:Er; cbn [bind] in E; try discriminate.
+  inversion E; subst. exists r. split; [reflexivity|]. eapply reduce_wf; eassumption.
+Qed.
+
+Lemma make_quantifier_wf x lazy mn mx y d0 :
+  good x -> pre x -> dirb d0 x = true -> bounds_ok mn mx = true -> make_quantifier x lazy mn mx = Ok y ->
+  pre y /\ forall d, dirb d x = true -> dirb d y = true.
+Proof.
+  intros G P D0 B E. destruct x as [t o ch m n str st kids]. unfold Parser.make_quantifier in E.
+  destruct ((mn =? 0) && (mx =? 0)).
+  { inversion E; subst. split; [apply wf_pre; apply wf_mk_node; reflexivity | intros d _; apply dirb_nonconsuming_leaf; reflexivity]. }
+  destruct ((mn =? 1) && (mx =? 1)); [inversion E; subst; auto|].
+  destruct ((mn =? mx) && (mx <=? pp_multi_limit) && (t =? T_One)) eqn:E3.
+  { assert (t = T_One) by lia. subst t. inversion E; subst.
+    assert (kids = []) by (destruct P as [H _]; cbn in H; destruct kids; [reflexivity | discriminate]). subst kids.
+    split; [apply wf_pre; apply wf_leaf; reflexivity|]. intros d Hd. rewrite <- Hd. apply dirb_retype; reflexivity. }
+  destruct ((t =? T_One) || (t =? T_Notone) || (t =? T_Set)) eqn:E4.
+  { inversion E; subst.
+    assert (W : wf (RN t o ch m n str st kids)).
+    { apply pre_wf; [|exact P]. cbn [n_t]. rewrite (proj1 (char1_facts t E4)). discriminate. }
+    destruct (make_rep_wf (RN t o ch m n str st kids) (if lazy then T_Onelazy else T_Oneloop) mn mx W E4) as [M1 M2].
+    - destruct lazy; auto.
+    - exact B.
+    - split; [apply wf_pre; exact M1 | intros d Hd; rewrite M2; exact Hd]. }
+  destruct (add_child_wf _ _ _ G P E) as [r [-> [Wr Dr]]]. cbn [mk_node_mn set_kids n_kids app].
+  split.
+  - split; [|cbn [n_kids]; apply wfl_cons; split; [exact Wr | apply wfl_nil]].
+    unfold knd. destruct lazy; cbn; rewrite B; cbn; specialize (Dr d0 D0); destruct d0; rewrite Dr; [apply orb_true_r | reflexivity | apply orb_true_r | reflexivity].
+  - intros d Hd. destruct lazy; rewrite loop_kid_dir by reflexivity; apply Dr; exact Hd.
+Qed.
+
+End TreeOk3.
+
+Lemma reverse_left_pre x : wfl (n_kids x) -> n_t x = T_Concatenate ->
+  pre (reverse_left x) /\ forall d, dirl d (n_kids x) -> dirb d (reverse_left x) = true.
+Proof.
+  intros K Ht. unfold reverse_left. destruct (useRTL (n_o x) && (n_t x =? T_Concatenate)).
+  - destruct x as [t o ch m n str st kids]. cbn [n_kids n_t set_kids] in *. subst t. split.
+    + split; [reflexivity | cbn [n_kids]; apply wfl_rev; exact K].
+    + intros d Hd. rewrite dirb_list_node by auto. apply dirl_rev. exact Hd.
+  - destruct x as [t o ch m n str st kids]. cbn [n_kids n_t] in *. subst t. split.
+    + split; [reflexivity | exact K].
+    + intros d Hd. rewrite dirb_list_node by auto. exact Hd.
+Qed.
+
+(* ---------------------------------------------------------------- node constructors *)
+Section Ctors.
+Variable simple_fold : Z -> Z.
+Variable cat_in : Z -> Z -> bool.
+
+(* a fresh single-character node under the options o: well formed and running in o's direction *)
+Definition unit_ok (o : Z) (x : rnode) : Prop := wf x /\ dirb (useRTL o) x = true.
+
+Lemma eqb_refl_b b : Bool.eqb b b = true.
+Proof. destruct b; reflexivity. Qed.
+
+Lemma unit_ok_leaf o t o' ch m n str st :
+  kcls t = KLeaf -> is_look t = false -> useRTL o' = useRTL o -> unit_ok o (RN t o' ch m n str st []).
+Proof.
+  intros K L R. split; [apply wf_leaf; exact K|]. rewrite dirb_leaf, L, R. destruct (consuming t); [apply eqb_refl_b | reflexivity].
+Qed.
+
+Lemma case_conv_unit t o ch st y : is_char1 t = true ->
+  case_conv simple_fold cat_in (RN t o ch 0 0 [] st []) = POk y -> unit_ok o y.
+Proof.
+  intros C E. destruct (char1_facts t C) as [K1 [K2 [K3 K4]]]. unfold case_conv in E.
+  destruct (negb (useI o)); [inversion E; subst; apply unit_ok_leaf; auto|].
+  destruct (0 <? ch).
+  - destruct (negb (simple_fold ch =? ch)); [|inversion E; subst; apply unit_ok_leaf; auto].
+    destruct (case_close simple_fold cat_in (add_char cat_in empty_cls ch)); cbn [pbind] in E; try discriminate.
+    inversion E; subst.
+    assert (T : t = 9 \/ t = 10 \/ t = 11) by (knum; lia).
+    destruct T as [-> | [-> | ->]]; cbn; apply unit_ok_leaf; try reflexivity; apply useRTL_clear_I.
+  - destruct st as [s|]; [|inversion E; subst; apply unit_ok_leaf; auto].
+    destruct (case_close simple_fold cat_in s); cbn [pbind] in E; try discriminate.
+    inversion E; subst. apply unit_ok_leaf; auto. apply useRTL_clear_I.
+Qed.
+
+Lemma mk_node_ch_unit t o ch y : is_char1 t = true -> mk_node_ch simple_fold cat_in t o ch = POk y -> unit_ok o y.
+Proof. intros C E. eapply case_conv_unit; eassumption. Qed.
+
+Lemma mk_node_set_unit o s y : mk_node_set simple_fold cat_in T_Set o s = POk y -> unit_ok o y.
+Proof. intros E. eapply (case_conv_unit T_Set); [reflexivity | exact E]. Qed.
+
+End Ctors.
